@@ -405,7 +405,7 @@ def import_into(ctx, rule, prefix='C14:'):
 _EXCL = {}
 
 
-def excludes_identity(ctx, value):
+def excludes_identity(ctx, value, want_all=False):
     """Does passing `value` as periodic_images' last argument exclude exactly the untranslated image?  True / False / None.
     Read off the truth table of the image filter (R3): the argument may be a bool or a two-variant enum."""
     f = ctx.facts
@@ -430,4 +430,20 @@ def excludes_identity(ctx, value):
     if z is None:
         return None
     # rows keyed (z, i==0, j==0): excluded iff the (1,1) row is False for this z
-    return tt.get(str((z, 1, 1))) is False and all(tt.get(str((z, a, c))) is True for a in (0, 1) for c in (0, 1) if (a, c) != (1, 1))
+    others = all(tt.get(str((z, a, c))) is True for a in (0, 1) for c in (0, 1) if (a, c) != (1, 1))
+    if want_all:
+        return others and tt.get(str((z, 1, 1))) is True
+    return tt.get(str((z, 1, 1))) is False and others
+
+
+def flag_value(t, op):
+    """The symbolic value of a constant flag operand (bool or unit enum variant) by definition tracing, else None."""
+    o = t.origin(op)
+    if o['o'] == 'const':
+        from ..mirutil import const_value
+        v = const_value(o.get('c', {}))
+        return ('bool', v) if isinstance(v, bool) else None
+    if o['o'] == 'rvalue' and o['rv']['r'] == 'aggr' and o['rv'].get('agg') == 'adt' and not o['rv']['ops'] and not o['p']:
+        rv = o['rv']
+        return ('struct', rv['adt'].replace('packing::', ''), (rv['variant'], rv['vi']), ())
+    return None
